@@ -360,6 +360,9 @@ func runC11(c *sim.Ctx) *sim.Violation {
 		w := cn.Will()
 		w.SetRetain(!w.Retain())
 		w.SetQoS((w.QoS() + 1) % 3)
+		if t.Bool(1, 2) {
+			w.SetPayload(nil) // what the CONNECT copied at SetWill time is now stale
+		}
 		c.Count("probe.read-only-history-on-a-CONNECT-whose-will-was-changed-after-SetWill")
 		// the new baseline encoding is itself a read-only operation: accessors and
 		// deep snapshot are taken BEFORE it and must survive it
